@@ -167,6 +167,13 @@ def cases(tier):
             out.append(dict(route='cfg', d=D(mod(c, mod('trans', a, x=0.3), b))))
         for a, b, c3 in itertools.product(psub[:4], repeat=3):
             out.append(dict(route='cfg', d=D(mod(c, a[1], b[1], c3[1]))) if c != 'pow' else dict(route='cfg', d=D(mod('sum', mod('pow', a[1], b[1]), c3[1]))))
+    # pow() with three and four operands (a left fold), analytic and formula operands
+    pb = [form('polynomial', 1.5, 0.5), form('morse', 1.8, 2.0, 0.6), {"custom": "ms", "params": [650.0, 0.35]}]
+    pe = [form('constant', 1.5), form('constant', 2), form('polynomial', 0.25, 0.05), {"custom": "br", "params": [0.5]}]
+    for b0 in pb:
+        for n in (2, 3):
+            for es in itertools.product(pe, repeat=n):
+                out.append(dict(route='cfg', d=D(mod('pow', b0, *es))))
     ends = [form('zbl', 14, 8), form('bornmayer', 850.0, 0.35), form('buck', 1000.0, 0.3, 32.0), form('morse', 1.8, 2.0, 0.6), form('polynomial', 3.0, -1.0, 0.2)]
     for s, e in itertools.product(ends, ends):
         for kind, rmin in (('exp_spline', None), ('buck4_spline', 1.1)):
@@ -213,6 +220,8 @@ def _an_item(it, r, env):
     m = it['mod']
     if m == 'trans':
         return analyze(it['args'][0], r + it['x'], env)
+    if m == 'pow' and len(it['args']) > 2:          # ((a**b)**c)**d
+        return _an_item({'mod': 'pow', 'args': [X.D({'mod': 'pow', 'args': it['args'][:-1]}), it['args'][-1]]}, r, env)
     parts = [analyze(a, r, env) for a in it['args']]
     lvl = max(p[4] for p in parts)
     if m == 'sum':
